@@ -22,7 +22,12 @@ impl Formatter {
     /// Format a program and return the formatted source
     pub fn format(mut self, program: &Program) -> String {
         self.format_program(program);
-        self.writer.finish()
+        // exactly one newline at the end of the file
+        let mut out = self.writer.finish();
+        while out.ends_with("\n\n") {
+            out.pop();
+        }
+        out
     }
 
     fn write_visibility(&mut self, visibility: crate::frontend::ast::Visibility) {
